@@ -1,4 +1,5 @@
 import Blf.PipeBound
+import Blf.UFileWrite
 /-!
 # C12 — Buffered data stays bounded no matter how long the file is
 
@@ -10,6 +11,13 @@ application stalls and the workers burst):
   queued objects ≤ queue capacity;
 * `dropOldData` leaves at most the containers from the one holding the get position on, so the bytes *held* are at most
   what is buffered ahead plus one container.
+
+* write session, bytes *held* (`UFile.held`, the sum of the container vectors): for every sequence of byte writes, reads and
+  `dropOldData` calls — any lengths, any order, any number — the containers held form one contiguous run that starts at
+  or before the put position and ends less than one container after it (`C12_write_session_resident`); between one
+  `dropOldData` and the next they amount to less than the distance from the unread position at that drop to the put
+  position plus two containers (`C12_write_held_since_drop`, `C12_write_held_after_drop`).  Before fix
+  2aa9853 this was false: the first write after everything had been dropped re-created every container from position 0.
 
 Measured, not proved: the allocator-level peak (harness allocation counter, as a function of the number of containers) —
 the models count stream bytes and queue entries, not `malloc` overhead, `std::vector` growth or zlib's work buffers.
@@ -34,6 +42,39 @@ theorem C12_drop_leaves_one_container (s : UFile.State) (hgp : s.tellg ≤ s.tel
     (UFile.dropOldData s).data = [] ∨
     ∃ c r, (UFile.dropOldData s).data = c :: r ∧ s.tellg < (c.size : Int) + c.pos :=
   PipeBound.drop_resident s hgp hpf
+
+/-- every write session of the in-memory stream (byte writes, reads, drops in any order and number): what is held is one
+    contiguous run of default-size containers that starts at some `b ≤ tellp` and ends less than one container beyond
+    `tellp` (`UFile.WInvAt`), so the bytes held are less than `tellp - b + D` -/
+theorem C12_write_session_resident (D : Nat) (hD : 0 < D) (ops : List UFile.WOp) :
+    let s := ops.foldl UFile.wstep { dlcs := D }
+    ∃ b : Int, UFile.WInvAt D b s ∧ (UFile.held s : Int) < s.tellp - b + D := by
+  obtain ⟨⟨b, hb⟩, _⟩ := UFile.session_winv D hD ops
+  exact ⟨b, hb, UFile.held_le D b _ hb⟩
+
+/-- … and from one `dropOldData` (the compressor calls it after every container) to the next: after any session `pre`, a
+    drop and then any writes and reads `ops`, the bytes held are less than the distance from the unread position at the
+    drop to the current put position plus two containers — no term for the length of `pre` -/
+theorem C12_write_held_since_drop (D : Nat) (hD : 0 < D) (pre ops : List UFile.WOp) (hnd : ∀ op ∈ ops, op ≠ UFile.WOp.drop) :
+    let s := pre.foldl UFile.wstep { dlcs := D }
+    let s' := ops.foldl UFile.wstep (UFile.dropOldData s)
+    (UFile.held s' : Int) < s'.tellp - min s.tellg s.tellp + 2 * D :=
+  UFile.held_since_drop D hD _ (UFile.session_winv D hD pre).1 (UFile.session_winv D hD pre).2 ops hnd
+
+/-- right after the drop: less than the unread bytes plus two containers -/
+theorem C12_write_held_after_drop (D : Nat) (hD : 0 < D) (pre : List UFile.WOp) :
+    let s := pre.foldl UFile.wstep { dlcs := D }
+    (UFile.held (UFile.dropOldData s) : Int) < max 0 (s.tellp - s.tellg) + 2 * D := by
+  have := C12_write_held_since_drop D hD pre [] (by simp)
+  simp only [List.foldl_nil] at this
+  have e : (UFile.dropOldData (pre.foldl UFile.wstep { dlcs := D })).tellp = (pre.foldl UFile.wstep { dlcs := D }).tellp := rfl
+  show (UFile.held (UFile.dropOldData (pre.foldl UFile.wstep { dlcs := D })) : Int) <
+    max 0 ((pre.foldl UFile.wstep { dlcs := D }).tellp - (pre.foldl UFile.wstep { dlcs := D }).tellg) + 2 * D
+  omega
+
+/-- test (one session, not the theorem): fill a container of 4, read it, drop it, write one more byte — 4 bytes are held,
+    not 8 (before fix 2aa9853: a second container from position 0) -/
+example : UFile.held ([UFile.WOp.write [1,2,3,4], .read 4, .drop, .write [5]].foldl UFile.wstep { dlcs := 4 }) = 4 := by decide
 
 /-- non-vacuity: 1000 containers of 8 bytes through a buffer of 4: a reachable state exists at all (the initial one) and
     the bound `max 4 3 + 8 = 12` does not mention 1000 -/
